@@ -15,6 +15,22 @@ CLAIMED = {
          "DESIGN.md section 5 C18"),
 }
 
+CLAIMED["C04"] = ("exploration",
+    "TLA+ reference matcher (TopicMatch.tla, from MQTT 3.1.1 4.7) evaluated by TLC: complete (filter,name) table replayed on topic.Tree in both directions; recorded random answers judged by TLC over raw bytes",
+    "Bounded-exhaustive: TLC evaluates the reference matcher on every valid filter x valid name over levels {a,b,empty,+,#} up to depth 4 (5 in thorough) and the real tree is "
+    "checked pair by pair in both directions (Add filter/Match name, Add name/Search filter, first-variants), on all small subsets and random larger sets; "
+    "random long multi-byte topics are recorded from the real tree and judged by TLC (level splitting decided by the specification).",
+    "Trusted: TopicMatch.tla as the oracle, TLC's evaluation, composition of set answers by union. '$'-topics are outside the stated universe.",
+    "DESIGN.md section 5 C04")
+CLAIMED["C05"] = ("model_checking",
+    "TLA+ map model (TopicTree.tla): TLC generates the complete reachable graph; every transition replayed on the real tree with every query compared; concurrent histories linearised by TLC (TopicTreeLin.tla)",
+    "TLC explores all states of the map model over a small topic x value universe and dumps every transition and the model's answer to every query; each transition is replayed on a "
+    "real topic.Tree (source state rebuilt along its BFS path) and Get/Match/Search/first-variants/All/Count/String() compared, earlier results re-compared after later operations "
+    "(snapshot clause); long random histories walk the same graph; concurrent histories (mixed, and long writer-vs-spinning-reader ones) recorded from the real tree are checked for "
+    "linearisability by TLC; the race detector observes the data-race clause.",
+    "Trusted: TLC, the edge/state dump, the replayer's projection, the Go race detector, inv/ret ordering under one mutex. Universe: 4 topics x 2 values quick, 7 x 2 thorough.",
+    "DESIGN.md section 5 C05")
+
 PENDING_REASON = "check not built yet in this round (planned, see DESIGN.md section 5)"
 
 
